@@ -36,6 +36,71 @@ func famRace(t *testing.T, r *Rec) {
 	raceCors(r)
 	raceCloseCauses(r)
 	raceListenerShutdown(r)
+	raceMapLookups(r)
+}
+
+// raceMapLookups (C04, C20): the client table is a types.Map. A key that has been stored and never deleted is found by
+// every lookup, however many lookups, counts and walks of the table run at the same moment — the first long poll and the
+// first upload of a fresh session arrive back to back — and no lookup ever costs another entry of the table.
+func raceMapLookups(r *Rec) {
+	rounds := 30000
+	if r.thorough() {
+		rounds = 300000
+	}
+	m := &types.Map[int, int]{}
+	bad := ""
+	for i := 0; i < rounds && bad == ""; i++ {
+		m.Store(i, i) // a fresh entry: it sits in the dirty half until a miss or a walk promotes it
+		var wg sync.WaitGroup
+		var miss atomic.Int32
+		look := func(k int) {
+			defer wg.Done()
+			if v, ok := m.Load(k); !ok || v != k {
+				miss.Add(1)
+			}
+		}
+		start := make(chan struct{})
+		wg.Add(6)
+		for k := 0; k < 3; k++ {
+			go func() { <-start; look(i) }()
+		}
+		go func() { defer wg.Done(); <-start; m.Load(-1 - i) }() // a lookup of an id nobody has: a miss, which may promote
+		go func() { defer wg.Done(); <-start; m.Load(-2 - i) }()
+		go func() {
+			defer wg.Done()
+			<-start
+			if i%2 == 0 {
+				m.Len()
+			} else {
+				m.Range(func(int, int) bool { return true })
+			}
+		}()
+		close(start)
+		wg.Wait()
+		if miss.Load() > 0 {
+			bad = fmt.Sprintf("round %d: %d of three lookups of the entry just stored did not find it", i, miss.Load())
+		} else if n := m.Len(); n != i+1 {
+			bad = fmt.Sprintf("round %d: the table holds %d entries, %d were stored and none deleted", i, n, i+1)
+		} else if i > 0 {
+			if _, ok := m.Load(i / 2); !ok {
+				bad = fmt.Sprintf("round %d: entry %d, stored long ago and never deleted, is gone", i, i/2)
+			}
+		}
+		if i%512 == 511 { // keep the table small: the race is about fresh entries
+			m.Clear()
+			for k := 0; k <= i; k++ {
+				m.Store(k, k)
+			}
+			m.Range(func(int, int) bool { return true })
+		}
+	}
+	r.scenarios++
+	r.Cover("race/map-lookups")
+	if bad != "" {
+		replay := []string{"Go: types.Map; per round: Store(fresh key), then at once 2 x Load(fresh key), Load(absent key), Len or Range"}
+		r.Violate("C04", "C04/table/lookup-of-live-entry-misses", "the client table under concurrent lookups: "+bad, replay)
+		r.Violate("C20", "C20/map/not-linearizable/concurrent-load", "types.Map under concurrent lookups: "+bad, replay)
+	}
 }
 
 // raceListenerShutdown (C12): an engine attached to an HTTP server that really listens (types.HttpServer.Listen on a
